@@ -150,9 +150,10 @@ impl HttpProtocol {
 impl From<::http::Version> for HttpProtocol {
     fn from(version: ::http::Version) -> Self {
         match version {
-            ::http::Version::HTTP_11 | ::http::Version::HTTP_10 => Self::Http1,
             ::http::Version::HTTP_2 => Self::Http2,
-            _ => panic!("Unsupported HTTP protocol"),
+            // HTTP/0.9, HTTP/1.0 and HTTP/1.1 are all carried by the HTTP/1 protocol. HTTP/3 is
+            // not supported, such a request is sent over HTTP/1.1 instead of panicking here.
+            _ => Self::Http1,
         }
     }
 }
